@@ -44,7 +44,7 @@ type vfC14Prog struct {
 
 const vfC14Pass = "Alpha1#passw"
 
-var vfC14Kinds = []string{"gen", "gen", "gen", "next", "next", "sign", "sign", "signmsg", "ordinal", "addr", "count", "names", "managers", "remark", "getremark", "export", "lock", "unlock", "islocked", "verify"}
+var vfC14Kinds = []string{"gen", "gen", "gen", "next", "next", "sign", "sign", "signmsg", "ordinal", "addr", "count", "names", "managers", "remark", "getremark", "export", "lock", "unlock", "islocked", "verify", "spin", "spin"}
 
 func vfGenC14(t *rapid.T) vfC14Prog {
 	p := vfC14Prog{NKs: rapid.IntRange(1, 2).Draw(t, "nks"), Unlocked: rapid.IntRange(0, 3).Draw(t, "unlocked") != 0, Procs: rapid.SampledFrom([]int{1, 2, 4, 8}).Draw(t, "procs")}
@@ -61,7 +61,7 @@ func vfGenC14(t *rapid.T) vfC14Prog {
 			op := vfCOp{K: rapid.SampledFrom(vfC14Kinds).Draw(t, "kind"), Ks: rapid.IntRange(0, 1).Draw(t, "ks"), Y: rapid.IntRange(0, 3).Draw(t, "yield")}
 			switch op.K {
 			case "next":
-				op.N = rapid.IntRange(1, 2).Draw(t, "n")
+				op.N = rapid.SampledFrom([]int{1, 1, 2, 3, 5, 8}).Draw(t, "n")
 				op.Int = rapid.Bool().Draw(t, "int")
 			case "sign", "signmsg", "ordinal", "addr", "verify":
 				op.Key = rapid.IntRange(0, 2).Draw(t, "key")
@@ -232,6 +232,7 @@ func vfC14Run(p vfC14Prog, c *vlib.Ctx) *vlib.Failure {
 	start := make(chan struct{})
 	var wg sync.WaitGroup
 	mutators := 0
+	active := int32(len(p.Threads)) // goroutines currently not inside a "spin" observation
 	for ti, th := range p.Threads {
 		for _, op := range th {
 			switch op.K {
@@ -244,6 +245,7 @@ func vfC14Run(p vfC14Prog, c *vlib.Ctx) *vlib.Failure {
 		wg.Add(1)
 		go func(ti int, th []vfCOp) {
 			defer wg.Done()
+			defer atomic.AddInt32(&active, -1)
 			defer func() {
 				if r := recover(); r != nil {
 					fail(vlib.Failf("panic-in-wallet-call", "goroutine %d: %v", ti, r))
@@ -262,6 +264,36 @@ func vfC14Run(p vfC14Prog, c *vlib.Ctx) *vlib.Failure {
 					b = 1
 				}
 				key := keys[op.Ks][b][op.Key%len(keys[op.Ks][b])]
+				if op.K == "spin" {
+					// an observer: reads the address counts of one keystore repeatedly; every read is an operation of
+					// the history, reads that repeat the previous answer are dropped (removing operations from a
+					// linearizable history keeps it linearizable, so this cannot cause a false alarm)
+					var am *AddrManager
+					for _, x := range kmc.GetManagedAddrManager() {
+						if x.Name() == ids[op.Ks] {
+							am = x
+						}
+					}
+					la, lb := -1, -1
+					atomic.AddInt32(&active, -1)
+					t0 := time.Now()
+					for r := 0; r < 60000 && (r < 50 || (atomic.LoadInt32(&active) > 0 && time.Since(t0) < 2*time.Second)); r++ {
+						call := atomic.AddInt64(&clock, 1)
+						a, b := am.CountAddresses()
+						ret := atomic.AddInt64(&clock, 1)
+						if a != la || b != lb {
+							la, lb = a, b
+							mu.Lock()
+							hist = append(hist, porcupine.Operation{ClientId: ti, Input: vfC14In{vfCOp{K: "count", Ks: op.Ks}}, Call: call, Output: vfC14Out{A: a, B: b}, Return: ret})
+							mu.Unlock()
+						}
+						if r%64 == 63 {
+							runtime.Gosched()
+						}
+					}
+					atomic.AddInt32(&active, 1)
+					continue
+				}
 				var out vfC14Out
 				call := atomic.AddInt64(&clock, 1)
 				switch op.K {
